@@ -18,6 +18,36 @@ NOT_APPLICABLE = {
 NOT_BUILT = {}
 
 CLAIMED = {
+    "C11": {
+        "level": "exploration",
+        "text": "Model-based exploration of layouts x ignore rules x path selections on bzr and git trees: simulated tree histories plus litter (ignore file from a 5-form grammar, ignored and plain names, nested 2a/git trees, empty control dirs, recorded conflicts with helper files, backups, dir symlinks), then 1-3 smart_add calls with named paths (ignored files, files in ignored dirs, versioned paths, nested roots, helpers, missing paths) and recurse on/off; newly versioned set, ids, kinds and persistence compared with a model.",
+        "note": "Rider on simulated tree histories (no schedule, no fault of its own); ignore matcher limited to the grammar; listed no-position zones (descendants of a named ignored directory, x.moved, directory kinds in git).",
+        "technique": "deterministic simulation: model-based differential check over simulated tree histories",
+    },
+    "C15": {
+        "level": "exploration",
+        "text": "Model-based exploration of shelve/unshelve stacks on simulated 2a tree histories: 2-12 pending changes (texts built so each changed region is one hunk), model-chosen consistent subsets of iter_shelvable items and hunks, shelf scripts of shelve / unshelve-top / delete / reopen, and in ~18% of runs one failing os-seam call inside the shelving transform; the tree (disk, paths, ids, kinds, texts, exec bits, iter_changes) is compared with a breezy-free model after every step, shelf ids are unique/increasing/persistent, and after a fault the tree is unchanged or completely shelved with a readable shelf.",
+        "note": "Consistent selections only; only the top shelf is unshelved; no fault inside the shelf write (it bypasses the transport seam); two open findings (stale THIS executability in merge; preview path lookup shadowed by a removed entry), two defects fixed in /repo.",
+        "technique": "deterministic simulation: reference model + single-fault os seam + seeded replay with ddmin",
+    },
+    "C42": {
+        "level": "exploration",
+        "text": "Simulated tree histories over unusual names, then 3-8 seeded export calls (dir, tar, tgz, tbz2, txz, tlzma, zip x root x subdir x per-file timestamps x filtered x path/fileobj x repository/basis tree), each read at member level and extracted, compared with the revision tree minus the documented exclusion.",
+        "note": "Rider (no schedule, no fault of its own); zip exec bits and symlinks, and mtimes without per-file timestamps, not asserted; one defect fixed in /repo (ContentFilterTree forwarding).",
+        "technique": "deterministic simulation: model-based differential check of exporters over simulated tree histories",
+    },
+    "C45": {
+        "level": "exploration",
+        "text": "Per-run eol rule set (7 settings, optional second pattern) and a model-generated write/commit/checkout/revert/update/reopen history over up to 4 trees of one 2a branch, contents over CR/LF/NUL/letters; disk bytes, filtered and unfiltered reads, sha1, iter_changes/has_changes, basis texts and text versions are compared with a model derived only from the `brz help eol` table; a fresh checkout must report no changes.",
+        "note": "Rider (no schedule, no fault of its own); canonical = text without NUL and without CR CR LF; one open finding (converters not idempotent on CR CR LF); bzr 2a only, POSIX 'native'.",
+        "technique": "deterministic simulation: model-based check of content-filter plumbing over simulated working-tree histories",
+    },
+    "C46": {
+        "level": "exploration",
+        "text": "Simulated tree history plus seeded litter (unknown, ignored and detritus names, ignore file, real nested bzr and git trees incl. below unversioned directories, symlinks to a sentinel directory next to the tree) and 1-3 clean_tree calls over every option subset incl. dry runs, on bzr and git trees; per-path keep/delete/free verdicts against a model, sentinel and scratch listing unchanged, versioned content unchanged, nested branches byte-identical.",
+        "note": "Rider (no schedule, no fault of its own); detritus = is_detritus; completeness goes beyond the property's 'only'; three nested-branch data-loss defects fixed in /repo.",
+        "technique": "deterministic simulation: model-guided history + litter, per-path oracle, sentinel checksum",
+    },
     "C01": {
         "level": "fault_enumeration",
         "text": "Seeded model-generated edit histories with 1-5 commits on a lightweight checkout of a store-hosted 2a branch. Every commit with a seeded specific_files/exclude selection is compared with basis+selected substitution (revision tree, parents, tip, remaining pending set). The last commit is re-executed from a rebuilt byte-identical pre-state once per storage operation (quick <=10 sampled, thorough all) with an error before that operation. When commit raised, tip, listed revisions, tree parents and pending changes must be unchanged and a retry must succeed and record the right tree.",
